@@ -33,13 +33,26 @@ def case_letters(c):
     return "".join(sorted(set(c["a"] + c["b"]))) if c.get("moltype") == "protein" else LET
 
 
-def score_lookup(c):
-    """S[(y, x)] of the case: an explicit dict, or make_generic_scoring_dict(match, moltype): match / -1"""
+# how the SOURCE reads an asymmetric score dict (set by run() from the implementation's own results): "transposed" = the
+# column (x in s1, y in s2) is scored Sd[y, x] (the pinned code), "natural" = Sd[x, y] (what the signature documents).
+# The specification oracle always reads Sd[x, y]; only the model's tables follow the source.
+SOURCE_ORIENT = ["transposed"]
+
+
+def is_asymmetric(c):
+    S = c.get("S")
+    return bool(S) and any(S[x + y] != S[y + x] for x in LET for y in LET)
+
+
+def score_lookup(c, orient="natural"):
+    """score of the column (x from the first sequence, y from the second), as a function (y, x) -> score"""
     if c.get("gmatch") is not None:
         g = c["gmatch"]
         return lambda y, x: g if x == y else -1
     S = c["S"]
-    return lambda y, x: S[y + x]
+    if orient == "transposed":
+        return lambda y, x: S[y + x]
+    return lambda y, x: S[x + y]
 
 
 DYADIC_T = {
@@ -64,13 +77,13 @@ def dyadic_tables(c):
     return T, em, offset
 
 
-def real_tables(c, n):
+def real_tables(c, n, orient="natural"):
     if c.get("dyadic"):
         T, em, offset = dyadic_tables(c)
         ln2 = math.log(2.0)
         Tr = {kk: (NEG if v == NEG else v * ln2 + (offset if kk[0] == "B" and kk[1] != "E" else 0.0)) for kk, v in T.items()}
         return Tr, {kk: v * ln2 for kk, v in em.items()}
-    return _real_tables(score_lookup(c), c["d"], c["e"], n, case_letters(c))
+    return _real_tables(score_lookup(c, orient), c["d"], c["e"], n, case_letters(c))
 
 
 def int_tables(c, n):
@@ -78,7 +91,7 @@ def int_tables(c, n):
     if c.get("dyadic"):
         T, em, offset = dyadic_tables(c)
         return T, em, math.log(2.0), offset
-    Tq, emq = quantise(*real_tables(c, n))
+    Tq, emq = quantise(*real_tables(c, n, SOURCE_ORIENT[0]))
     return Tq, emq, 1.0 / K, 0.0
 
 
@@ -219,6 +232,15 @@ def dna_S(match, ts, tv):
     return S
 
 
+def frac_S(rng):
+    """non-integer scores: multiples of 0.25 (halves, quarters, negative fractions); symmetric or not"""
+    q = lambda lo, hi: rng.randint(lo * 4, hi * 4) / 4.0
+    if rng.random() < 0.5:
+        m, ts, tv = q(1, 6) + 0.5, q(-3, 0) - 0.25, q(-6, -1) - 0.5
+        return dna_S(m, ts, tv)
+    return {x + y: q(-5, 6) + rng.choice([0.25, 0.5, 0.75]) for x in LET for y in LET}
+
+
 def rand_S(rng):
     r = rng.random()
     if r < 0.45:
@@ -310,6 +332,18 @@ def pair_cases(rng, tier):
         kexp = {x + y: (rng.randint(0, 3) if x == y else rng.randint(-4, 1)) for x in LET for y in LET}
         cases.append(dict(kind="pair", a=a, b=b, local=rng.random() < 0.4, d=None, e=None,
                           dyadic=dict(T=rng.choice(["T1", "T1", "T3"]), k=kexp), block="dyadic"))
+    # non-integer score dictionaries through the public API (both APIs, both modes)
+    for k in range(60 if tier == "quick" else 600):
+        a = rand_seq(rng, 1, 10 if tier == "quick" else 24)
+        b = mutate(rng, a) if rng.random() < 0.6 else rand_seq(rng, 1, 10 if tier == "quick" else 24)
+        cases.append(dict(kind="pair", a=a, b=b, S=frac_S(rng), d=rng.randint(1, 12) + rng.choice([0, 0.5]), e=rng.randint(1, 4) + rng.choice([0, 0.25]),
+                          local=(k % 2 == 1), api="classic" if k % 4 >= 2 else "pairwise", block="fractional"))
+    # boundary gap penalties: 0, equal open/extend, large
+    for k in range(40 if tier == "quick" else 400):
+        a = rand_seq(rng, 1, 10)
+        b = mutate(rng, a) if rng.random() < 0.6 else rand_seq(rng, 1, 10)
+        d, e = [(0, 2), (5, 0), (0, 0), (3, 3), (1, 1), (25, 1), (25, 25), (2, 9)][k % 8]
+        cases.append(dict(kind="pair", a=a, b=b, S=rand_S(rng), d=d, e=e, local=(k % 3 == 2), block="boundary_penalties"))
     # the threshold dimension crosses every pairwise mode: local/global x global_pairwise/local_pairwise and
     # classic_align_pairwise(local=...) x HIRSCHBERG_LIMIT in {0, small}; each case is also run at the default
     # threshold by the runner ("full") and the two results are compared
@@ -339,8 +373,9 @@ def pair_cases(rng, tier):
     for k in range(nh):
         a = rand_seq(rng, 3, 10 if tier == "quick" else 30)
         b = mutate(rng, a) if rng.random() < 0.5 else rand_seq(rng, 1, 10 if tier == "quick" else 30)
-        cases.append(dict(kind="pair", a=a, b=b, S=rand_S(rng), d=rng.randint(1, 20), e=rng.randint(1, 5),
-                          local=False, hirsch=True, middle=True, block="hirschberg"))
+        # (symmetric dicts here: the middle row is computed by the runner from tables it builds itself)
+        cases.append(dict(kind="pair", a=a, b=b, S=dna_S(rng.randint(1, 12), rng.randint(-6, 2), rng.randint(-10, 0)),
+                          d=rng.randint(1, 20), e=rng.randint(1, 5), local=False, hirsch=True, middle=True, block="hirschberg"))
     return cases
 
 
@@ -384,7 +419,7 @@ def app_cases(rng, tier):
         base = rand_seq(rng, 4, 14)
         seqs = {f"s{k}": (mutate(rng, base) if rng.random() < 0.8 else rand_seq(rng, 2, 14)) for k in range(rng.randint(2, 5))}
         ref = rng.choice(["longest"] + sorted(seqs))
-        de = rng.choice([(None, None), (None, None), (10, 2), (3, 1)])
+        de = rng.choice([(None, None), (None, None), (10, 2), (3, 1), (0, 2), (6, 0), (0, 0), (4, 4), (25, 1)])
         cases.append(dict(kind="ref", seqs=seqs, ref=ref, d=de[0], e=de[1], hlimit=[None, 0, SMALL_LIMIT][len(cases) % 3], block="align_to_ref"))
     nprog = 12 if tier == "quick" else 100
     for _k in range(nprog):
@@ -398,7 +433,26 @@ def app_cases(rng, tier):
             for nm in names[2:]:
                 t = f"({t}:0.05,{nm}:0.2)"
             tree = t + ";"
-        cases.append(dict(kind="prog", seqs=seqs, tree=tree, hlimit=[None, 0, SMALL_LIMIT][_k % 3], block="progressive_align"))
+        cases.append(dict(kind="prog", seqs=seqs, tree=tree, must_complete=tree is not None,
+                          hlimit=[None, 0, SMALL_LIMIT][_k % 3], block="progressive_align"))
+    # constructed nested-indel families on a given guide tree: later joins open gaps at / next to earlier gaps
+    nn = 16 if tier == "quick" else 160
+    for _k in range(nn):
+        seg = lambda lo, hi: rand_seq(rng, lo, hi)
+        P, Q, S_, I, J = seg(4, 8), seg(4, 8), seg(2, 5), seg(2, 5), seg(2, 4)
+        fam = _k % 4
+        if fam == 0:      # A=P+Q, B=P+S+Q, C=P+I+S+Q : new gap at the column of A's earlier gap
+            seqs = dict(A=P + Q, B=P + S_ + Q, C=P + I + S_ + Q); tree = "((A:0.1,B:0.1):0.05,C:0.2);"
+        elif fam == 1:    # insertion right after the earlier gap
+            seqs = dict(A=P + Q, B=P + S_ + Q, C=P + S_ + I + Q); tree = "((A:0.1,B:0.1):0.05,C:0.2);"
+        elif fam == 2:    # four sequences, nested twice
+            seqs = dict(A=P + Q, B=P + S_ + Q, C=P + I + S_ + Q, D=P + I + J + S_ + Q)
+            tree = "(((A:0.1,B:0.1):0.05,C:0.15):0.05,D:0.2);"
+        else:             # five sequences, two cherries joined, gaps on both sides
+            seqs = dict(A=P + Q, B=P + S_ + Q, C=P + I + S_ + Q, D=P + S_ + J + Q, E=P + I + S_ + J + Q)
+            tree = "(((A:0.1,B:0.1):0.05,(C:0.1,D:0.1):0.05):0.05,E:0.2);"
+        cases.append(dict(kind="prog", seqs=seqs, tree=tree, must_complete=True, hlimit=[None, 0][_k % 2 if _k % 8 >= 4 else 0],
+                          block="progressive_nested"))
     return cases
 
 
@@ -498,6 +552,23 @@ def check_pair(rep, c, ir, stats):
         r1, r2 = ir["rows"]
         rescored = path_score(rows_to_path(r1, r2), r1.replace("-", ""), r2.replace("-", ""), T, em, local=c["local"])
     reported = ir["score"] if ir["score"] is not None else rescored   # return_score=False: judge the rows alone
+    if is_asymmetric(c) and not c.get("dyadic") and reported is not None and \
+            not (close(opt, reported, extra) and (rescored is None or ir["score"] is None or close(rescored, ir["score"], extra))):
+        # does reading the caller's dict the other way round explain the result?
+        Tt, emt = real_tables(c, ir["n"], "transposed")
+        opt_t = dp_local(a, b, Tt, emt) if c["local"] else dp_global(a, b, Tt, emt)
+        res_t = None if ir["rows"] is None else path_score(rows_to_path(*ir["rows"]), ir["rows"][0].replace("-", ""),
+                                                          ir["rows"][1].replace("-", ""), Tt, emt, local=c["local"])
+        reported_t = ir["score"] if ir["score"] is not None else res_t
+        if reported_t is not None and close(opt_t, reported_t, extra) and (res_t is None or close(res_t, reported_t, extra)):
+            stats["asym_transposed"] = stats.get("asym_transposed", 0) + 1
+            rep.violation("pairwise:asymmetric-score-dict-read-transposed",
+                          dict(case=c, observed_impl=ir, expected_by_spec=dict(optimum_for_Sd_x_y=opt, score_of_returned_rows_for_Sd_x_y=rescored,
+                               optimum_if_read_as_Sd_y_x=opt_t),
+                               broken="with an asymmetric score dict the column (x in s1, y in s2) is scored Sd[y, x] instead of Sd[x, y]: "
+                                      "reported score != score of the returned path under the caller's dict / not optimal for it"))
+            stats["viol"] += 1
+            return T, em
     if rescored is not None and ir["score"] is not None and not close(rescored, ir["score"], extra):
         rep.violation(f"{mode}:score-differs-from-path-score",
                       dict(case=c, observed_impl=ir, expected_by_spec=dict(score_of_returned_rows=rescored, optimum=opt),
@@ -520,7 +591,14 @@ def check_pair(rep, c, ir, stats):
         fs = full["score"]
         if fs is None and full["rows"] is not None and valid_rows(full["rows"], a, b, c["local"]) is None:
             fs = path_score(rows_to_path(*full["rows"]), full["rows"][0].replace("-", ""), full["rows"][1].replace("-", ""), T, em, local=c["local"])
-        if fs is not None and not close(fs, reported, extra):
+        same_other_reading = False
+        if fs is not None and full["score"] is None and is_asymmetric(c) and ir["rows"] is not None and full["rows"] is not None:
+            # no scores returned and an asymmetric dict: two co-optimal alignments of the source's reading may score
+            # differently under the documented reading (that defect has its own key); compare under the other reading too
+            Tt, emt = real_tables(c, ir["n"], "transposed")
+            sc = lambda rw: path_score(rows_to_path(*rw), rw[0].replace("-", ""), rw[1].replace("-", ""), Tt, emt, local=c["local"])
+            same_other_reading = close(sc(full["rows"]), sc(ir["rows"]), extra)
+        if fs is not None and not close(fs, reported, extra) and not same_other_reading:
             rep.violation(f"{mode}:score-differs-from-full-dp",
                           dict(case=c, observed_impl=ir, expected_by_spec=dict(full_dp_score=fs),
                                broken="the result depends on the HIRSCHBERG_LIMIT threshold (linear-space vs full dynamic programming)"))
@@ -601,6 +679,11 @@ def check_app(rep, c, ir, stats):
         return
     if "not_completed" in ir:
         stats["prog_nc"] = stats.get("prog_nc", 0) + 1
+        if c.get("must_complete"):
+            # the guide tree is given: nothing but the alignment itself can fail
+            rep.violation(f"{op}:not-completed", dict(case=c, observed_impl=ir,
+                          broken="progressive alignment on a given guide tree did not return an alignment for valid sequences"))
+            stats["viol"] += 1
         return
     rows = ir["rows"]
     bad = None
@@ -616,6 +699,22 @@ def check_app(rep, c, ir, stats):
         return
     if c["kind"] == "ref":
         ref = ir["ref"]
+        d_cfg = 20 if c.get("d") is None else c["d"]
+        e_cfg = 2 if c.get("e") is None else c["e"]
+        T, em = _real_tables(lambda y, x: dna_S(10, -1, -8)[y + x], d_cfg, e_cfg, 4, LET)
+        for n in sorted(ir["pairs"]):
+            # the pairwise alignment the multiple alignment induces must be optimal for the CONFIGURED penalties
+            pa, pb = project(rows[ref], rows[n])
+            sa, sb = c["seqs"][ref], c["seqs"][n]
+            if valid_rows([pa, pb], sa, sb, False) is None:
+                got = path_score(rows_to_path(pa, pb), sa, sb, T, em)
+                opt = dp_global(sa, sb, T, em)
+                if not close(got, opt, cond_tol(d_cfg, e_cfg)) and star_shape(dict(ref=sa, pw=[ir["pairs"][m] for m in sorted(ir["pairs"])])) == "other":
+                    rep.violation("align_to_ref:induced-pairwise-alignment-not-optimal-for-configured-penalties",
+                                  dict(case=c, observed_impl=ir, expected_by_spec=dict(seq=n, optimum=opt, induced_score=got, d=d_cfg, e=e_cfg),
+                                       broken="the pairwise alignment induced on (ref, seq) is not optimal for the configured gap penalties"))
+                    stats["viol"] += 1
+                    return
         for n, pr in ir["pairs"].items():
             if project(rows[ref], rows[n]) != pr:
                 sc = dict(kind="star", ref=c["seqs"][ref], pw=[ir["pairs"][m] for m in sorted(ir["pairs"])])
@@ -764,6 +863,17 @@ def run(tier: str, seed: int) -> int:
                       n=stats["prog_nc"], of=nprog, sample=next(ir for ir in impl if "not_completed" in ir)), no_input=True)
     # linear-space vs full DP on the same input (the full-DP result is recomputed by the oracle: the optimum)
     # -> covered by check_pair's keys "hirschberg:global:*"
+    # how does the source read asymmetric dicts?  (decides the tables the MODEL is evaluated on, not the verdict)
+    votes = dict(natural=0, transposed=0)
+    for c, ir in zip(cases, impl):
+        if c["kind"] == "pair" and is_asymmetric(c) and not c.get("dyadic") and "exc" not in ir and ir.get("score") is not None \
+                and not c.get("opts") and not c["local"] and case_limit(c) is None:
+            for o in votes:
+                To, emo = real_tables(c, ir["n"], o)
+                if close(dp_global(c["a"], c["b"], To, emo), ir["score"], cond_tol(c["d"], c["e"])):
+                    votes[o] += 1
+    SOURCE_ORIENT[0] = "natural" if votes["natural"] > votes["transposed"] else "transposed"
+    rep.coverage["asymmetric_dict_orientation_of_source"] = dict(votes=votes, used_for_model=SOURCE_ORIENT[0])
     # models
     model_ok = True
     try:
